@@ -204,7 +204,12 @@ impl Stats {
     }
     /// Distinct-case accounting: call once per executed case key.
     pub fn distinct_case(&mut self, key: u64) {
-        self.distinct.insert(key);
+        // memory cap: beyond 4M distinct keys per shard the count becomes a lower bound
+        if self.distinct.len() < 4_000_000 {
+            self.distinct.insert(key);
+        } else {
+            self.count("distinct_counting_capped_cases", 1);
+        }
     }
     /// Room for another sample of this outcome class (0 Complete, 1 Partial, 2 Err)?
     pub fn room(&self, class: u8) -> bool {
